@@ -26,6 +26,8 @@ package midicat
 //@ func convert
 //@ ensures err != nil ==> out == nil
 //@ ensures [P:C19] hexCanon(seq(b)) ==> (err == nil && len(out) == len(b) / 2)
+// a field with an odd number of hex digits is malformed: an error, not a record that drops the last digit
+//@ ensures [P:C19] hexOdd(seq(b)) ==> err != nil
 //@ ensures [P:C19] hexCanon(seq(b)) ==> forall i int :: (0 <= i && i < len(b) / 2) ==> out[i] == hexv(b[2 * i]) * 16 + hexv(b[2 * i + 1])
 
 // Read: exactly one line is consumed (self-framing), whatever it contains; the bytes before the first space are the
